@@ -4,7 +4,7 @@
 #define VP_OPS_H
 #include "lib.h"
 
-enum { R_IN, R_OUT, R_INOUT, R_SCRATCH };
+enum { R_IN, R_OUT, R_INOUT, R_SCRATCH, R_INTMP };  // R_INTMP: an input the call may destroy (content unspecified afterwards)
 enum { F_NONE, F_I64, F_DBL, F_DBLINT, F_U64, F_U32A, F_C120, F_I32, F_RATIO };
 
 typedef struct {
